@@ -1,6 +1,7 @@
 import S2T.Lemmas.OmmlMain
 import S2T.Lemmas.OmmlRuns
 import S2T.Gen.Omml
+import S2T.Props.C19_Src
 /-!
 # C19 — OMML → LaTeX conversion is total, order-preserving and balanced
 
